@@ -31,7 +31,9 @@ PROP = {
             "quick": {"gen": [(3000, 30)]},
             "thorough": {"gen": [(30000, 40)]},
         }],
-        "keys": ["wsstream.*", "wsdecode.bounded", "wsdecode.panic", "wsdecode.frame"],
+        "keys": ["wsstream.*", "wsdecode.bounded", "wsdecode.panic", "wsdecode.frame", "wshandshake.second-session-close"],
+        # a Stream that is handshaken again answers violations like a fresh one (real servers, two sessions per Stream)
+        "direct": [{"component": "wshandshake", "args": ["only=second-session"], "keys": ["wshandshake.second-session-close"], "timeout": 300}],
         "rule": "same component as C08; half of the generated scripts are single-violation mutations of conforming sessions (reserved "
                 "bits, reserved opcode 3-7/0xB-0xF, masked frame, control frame without FIN, control payload > 125, continuation "
                 "with nothing to continue, new data frame inside a fragmented message, frame over the maximum) injected at a random "
